@@ -1467,6 +1467,19 @@ def string_assembly_rule(prog, res, rule, g2):
             if not la or la[0]['name'] is None:
                 return None
             ws.add(substitute(la[0]['bound'], sub) if sub else la[0]['bound'])
+        if not found:
+            # built in one go:  std::string v(std::accumulate(X.begin() + a, X.begin() + a + N, std::string()))  ->  N cells
+            from paths import local_init
+            ini = local_init(f, vid)
+            e_ = f.nodes[f.strip(ini, 'all')] if ini is not None else None
+            if e_ is not None and e_['k'] == 'CallExpr' and e_.get('callee', {}).get('qname') == 'std::accumulate' and len(f.call_args(e_)) >= 3:
+                b_, en_ = Rf.render(f.call_args(e_)[0]), Rf.render(f.call_args(e_)[1])
+                b_ = re.sub(r'^\w[\w:<>, *]*\{(.*)\}$', r'\1', b_)
+                en_ = re.sub(r'^\w[\w:<>, *]*\{(.*)\}$', r'\1', en_)
+                m_ = re.match(r'^%s\.operator\+\((.*)\)$' % re.escape(b_), en_)
+                if m_:
+                    n_ = re.sub(r'^\((?:long|unsigned long|std::ptrdiff_t|int)\)', '', m_.group(1))
+                    return {substitute(n_, sub) if sub else n_}
         return ws if found else None
     for f, sub in fam:
         Rf = Renderer(f)
